@@ -1576,6 +1576,23 @@ func (f *File) AddRetract(vi VersionInterval, rationale string) error {
 			r.Syntax.Comment().Before = append(r.Syntax.Comment().Before, com)
 		}
 	}
+
+	// Record the new directive in f.Retract, as the other Add methods do for
+	// their lists, so that DropRetract and Cleanup see it. The rationale is
+	// read back the way the parser would read it (a line without comments of
+	// its own inherits the comments of the block it was added to).
+	var block *LineBlock
+	for _, stmt := range f.Syntax.Stmt {
+		if b, ok := stmt.(*LineBlock); ok {
+			for _, l := range b.Line {
+				if l == r.Syntax {
+					block = b
+				}
+			}
+		}
+	}
+	r.Rationale = parseDirectiveComment(block, r.Syntax)
+	f.Retract = append(f.Retract, r)
 	return nil
 }
 
